@@ -63,8 +63,11 @@ class C03(core.Prop):
     CHECK_FUN = 'C03.check_case'
     EXTRA_TARGETS = ['Model/C03.vo', 'Lib/Corr.vo']
     RULE = (
-        'random sequences of 1-6 decorated operators (mapper, apply-only, train-only, separate apply+train actors, each '
-        'with or without a label actor, label-only; stateful and stateless actors) under a random parenthesisation, and '
+        'random sequences of 1-6 operators (mapper, apply-only, train-only, separate apply+train actors, each '
+        'with or without a label actor, label-only; stateful and stateless actors; each either decorated with the wrap '
+        'decorators or written against the public composition API - Worker/fork/train/Trunk.extend of only the segments '
+        'it has an actor for, with stateless taps hanging off the train/label segments it leaves alone) under a random '
+        'parenthesisation, and '
         'ALL parenthesisations of sequences of up to 4 operators; built with the real wrap.Operator decorators and >>, '
         'composed with a symbolic extraction source, both segments compiled and executed; train-mode output, apply-mode '
         'output (with the states of a separately expanded composition bound positionally) and committed states compared '
@@ -73,6 +76,7 @@ class C03(core.Prop):
     ASSUMPTIONS = [
         'actors are uninterpreted symbols; the source is the real io extraction operator with symbolic drivers and a 1:2 slicer',
         'MapReduce and the debug operators are outside the model (not generated)',
+        'a public-API operator denotes what its decorated twin denotes; its taps are sinks and denote nothing',
     ]
 
     def _actor(self, rng, prefix, k):
@@ -91,6 +95,11 @@ class C03(core.Prop):
             spec = {'apply': self._actor(rng, 'a', k), 'train': self._actor(rng, 't', k)}
         if style == 'label' or rng.random() < 0.3:
             spec['label'] = self._actor(rng, 'l', k)
+        if rng.random() < 0.3:
+            # the same operator written against the public composition API, extending only the segments it has an
+            # actor for, with stateless taps on (some of) the segments it leaves alone
+            spec['api'] = True
+            spec['taps'] = [name for name in ('train', 'label') if rng.random() < 0.7]
         return spec
 
     @staticmethod
